@@ -1,4 +1,4 @@
-import QuiverModel.Lemmas.Sys.Delivery
+import QuiverModel.Lemmas.Sys.Sched
 /-
 C04 — Messages: exactly-once, per-sender FIFO, and no lost wake-ups.
 
@@ -113,6 +113,59 @@ theorem spawn_reply (n : Nat) (prog : Prog) (req : Nat) (hn : 0 < n) (hwf : Prog
   · show notifiedOf c s.spawnNotified ++ notifyC c (s.cmdQ (home s c)) = spawnedOf c s.spawned
     rw [h.spawnNotified, h.spawned, (Inert.facts (K := fun _ => True) (h.inert _)).2.2.1]; rfl
   · exact h.spawnReply c
+
+/-- The scheduling invariant (`SInv`) after every choice sequence. -/
+theorem sched_invariant (n : Nat) (prog : Prog) (req : Nat) (hn : 0 < n) (hwf : ProgWF prog) (cs : List Choice) :
+    PreStart (reach n prog req cs) ∨ SInv (reach n prog req cs) :=
+  invariant_from_init Rules.current SInv (fun _ h => SInv.of_started h)
+    (fun _ m h => h.micro Rules.current_sane m) n prog req hn hwf cs
+
+theorem preStart_sched {s : Sys} (h : PreStart s) (w : Wid) : WSched (s.wk w) ∧ (s.wk w).spawning = [] := by
+  rw [h.wk]
+  by_cases e : w = 0
+  · subst e
+    simp only [upd_same]
+    refine ⟨{ qnd := by simp [W0init, WorkerSt.setProc, WorkerSt.empty], spnd := by simp [W0init, WorkerSt.setProc, WorkerSt.empty],
+              send := by simp [W0init, WorkerSt.setProc, WorkerSt.empty], dqs := ?_, dss := ?_, live := ?_ }, by simp [W0init, WorkerSt.setProc, WorkerSt.empty]⟩
+    · intro p hp; simp [W0init, WorkerSt.setProc, WorkerSt.empty] at hp
+    · intro p hp; simp [W0init, WorkerSt.setProc, WorkerSt.empty] at hp
+    · intro p hp; simp [W0init, WorkerSt.setProc, WorkerSt.empty] at hp
+  · simp only [upd_other _ _ _ _ e]
+    refine ⟨{ qnd := by simp [WorkerSt.empty], spnd := by simp [WorkerSt.empty], send := by simp [WorkerSt.empty],
+              dqs := ?_, dss := ?_, live := ?_ }, by simp [WorkerSt.empty]⟩
+    · intro p hp; simp [WorkerSt.empty] at hp
+    · intro p hp; simp [WorkerSt.empty] at hp
+    · intro p hp; simp [WorkerSt.empty] at hp
+
+/-- **Re-queue only if parked**: on every worker, `queue`, `spawning` and `selecting` are duplicate
+free and pairwise disjoint, and every process in one of them exists and is unfinished — a process is
+never runnable twice, never runnable while parked, never parked for two reasons. -/
+theorem sched_sets_disjoint (n : Nat) (prog : Prog) (req : Nat) (hn : 0 < n) (hwf : ProgWF prog) (cs : List Choice)
+    (w : Wid) : WSched ((reach n prog req cs).wk w) := by
+  rcases sched_invariant n prog req hn hwf cs with h | h
+  · exact (preStart_sched h w).1
+  · exact h.sched w
+
+/-- **A spawner always receives its pid**: while a process is parked in `spawning`, its SpawnAction
+is queued at its worker's event queue or the NotifySpawn for it is queued at its worker's command
+queue. -/
+theorem spawner_receives_pid (n : Nat) (prog : Prog) (req : Nat) (hn : 0 < n) (hwf : ProgWF prog) (cs : List Choice)
+    (w : Wid) (c : Pid) (hc : c ∈ ((reach n prog req cs).wk w).spawning) :
+    (∃ fn regs coloc, Evt.spawn c fn regs coloc ∈ (reach n prog req cs).evtQ w) ∨
+    (∃ p, Cmd.notifySpawn c p ∈ (reach n prog req cs).cmdQ w) := by
+  rcases sched_invariant n prog req hn hwf cs with h | h
+  · rw [(preStart_sched h w).2] at hc; simp at hc
+  · exact h.spawner w c hc
+
+/-- … hence when the queues are empty nobody is waiting for a spawn reply. -/
+theorem quiescent_no_spawner_waiting (n : Nat) (prog : Prog) (req : Nat) (hn : 0 < n) (hwf : ProgWF prog)
+    (cs : List Choice) (hidle : (reach n prog req cs).idle) (w : Wid) (hw : w < (reach n prog req cs).n) :
+    ((reach n prog req cs).wk w).spawning = [] := by
+  apply List.eq_nil_iff_forall_not_mem.mpr
+  intro c hc
+  rcases spawner_receives_pid n prog req hn hwf cs w c hc with ⟨_, _, _, h1⟩ | ⟨_, h1⟩
+  · rw [(hidle w hw).2.1] at h1; simp at h1
+  · rw [(hidle w hw).1] at h1; simp at h1
 
 /-- `notify_spawn` re-queues the caller iff it was parked in `spawning` (and always hands it the
 pid): the handler on an arbitrary state. -/
